@@ -2,6 +2,7 @@
 EXTENDS HugrBuilder, Json
 RootBQ == <<BoolT, QubitT>>
 RootB == <<BoolT>>
-View == <<nodes, links, ctxs, done, used>>
+View == <<nodes, links, ctxs, pending, done, used>>
 EmitFinished == (Finished /\ hist # <<>>) => PrintT(ToJson([hist |-> hist, doc |-> Doc, counts |-> {<<n, NumOut(NodeOp(n))>> : n \in done}]))
+DebugFail == (Finished /\ ~(User(Doc) /\ Builder(Doc))) => PrintT(<<"FAIL", Failing(Doc), hist>>)
 =============================================================================
